@@ -323,9 +323,11 @@ def universes(family, tier, seed):
                ('etail', [2, 48], ['OOO', 'AOO']), ('etail', [1, 600], ['OOO']), ('etail', [3, 20], ['OOO']),
                ('echain', 300, ['OOO']), ('elayers', [2, 48], ['OOO', 'AOO', 'OAO']), ('elayers', [3, 30], ['OOO', 'OAO'])]
         if tier == 'thorough':
-            big += [('chain', 4000, ['OOO', 'EEO', 'AOE']), ('layers', [40, 100], ['OOO', 'EOE']), ('fan', 4000, ['OOO', 'AEO']),
-                    ('chain', 1500, ['OEE', 'EOA', 'AEO', 'OEO']), ('layers', [100, 12], ['OEO', 'AOE']),
-                    ('echain', 3000, ['OOO']), ('elayers', [2, 200], ['OOO'])]
+            # 4000 jobs where the cascade resolves inside few calls (cheap in driver events); 1500 for the patterns in which every
+            # third job is executed (2 driver events per executed job, each with whole-graph invariant checks: quadratic)
+            big += [('chain', 4000, ['OOO']), ('layers', [40, 100], ['OOO']), ('fan', 4000, ['OOO']),
+                    ('chain', 1500, ['EEO', 'AOE', 'OEE', 'EOA', 'AEO', 'OEO']), ('layers', [30, 50], ['EOE', 'AEO']), ('layers', [100, 12], ['OEO', 'AOE']),
+                    ('fan', 1500, ['AEO', 'EEO']), ('echain', 1500, ['OOO']), ('elayers', [2, 200], ['OOO', 'OAO'])]
         for shape, n, pats in big:
             for pat in pats:
                 jobs.append({'family': family, 'shape': shape, 'n': n, 'pattern': [K[c] for c in pat]})
